@@ -230,6 +230,7 @@ def run(ctx):
     if not exe or not drv:
         return
     ncases, maxlen = (120, 40) if ctx.quick else (300, 120)
+    ncases = int(os.environ.get('VERIF_NCASES', ncases))          # self-tests: fewer random histories
     cases = dsgen.load_corpus("C03")
     ctx.cov["corpus_cases"] = len(cases)
     r = ctx.rng.fork("c03")
